@@ -221,9 +221,21 @@ def real_ifm_area(c):
 @guarded
 def real_rb_shape(c):
     v = V()
-    ph, pw, pd, ch, cw = c
-    r = v.cb.rolling_buffer_shape(v.s4.Shape4D(1, ph, pw, pd), v.s4.Shape4D(1, ch, cw, pd))
+    ph, pw, pd, ch, cw, rows = c
+    r = v.cb.rolling_buffer_shape(v.s4.Shape4D(1, ph, pw, pd), v.s4.Shape4D(1, ch, cw, pd), rows)
     return ints(r.as_list())
+
+
+@guarded
+def real_stripe_ifm_rows(cons, hin):
+    """cascade_builder.stripe_ifm_rows on stub objects for a consumer of the generator schedules (dict of conv_op)"""
+    v = V()
+    S = v.s4.Shape4D
+    consumer = Obj(parent_op=Obj(attrs={"skirt": tuple(cons["skirt"])} if cons["skirt"] is not None else {}),
+                   resampling_mode=v.rm(cons["up_mode"]), kernel=v.op.Kernel(cons["k_w"], cons["k_h"], cons["sx"], cons["sy"], cons.get("dil_w", 1), cons["dil_h"]),
+                   ifm=Obj(shape=S(*cons["ifm"])))
+    cost = Obj(stripe=S(*cons["stripe"]), stripe_input=S(1, hin, cons["ifm"][2], cons["ifm"][3]))
+    return int(v.cb.stripe_ifm_rows(consumer, cost))
 
 
 @guarded
@@ -614,8 +626,9 @@ def _run(tier, res, b):
         ncorr["get_ifm_area_required"] += 1
         if m is not None and m != r:
             note_diff("get_ifm_area_required", c, m, r)
-    cases = [[ph, pw, pd, ch_, cw_] for ph, ch_ in itertools.product(range(1, 16), range(1, 16)) for pw, pd, cw_ in ((8, 16, 8), (5, 17, 9))]
-    cases += [[rng.randrange(1, 300), rng.randrange(1, 300), rng.randrange(1, 300), rng.randrange(1, 300), rng.randrange(1, 300)]
+    cases = [[ph, pw, pd, ch_, cw_, rows] for ph, ch_ in itertools.product(range(1, 16), range(1, 16)) for pw, pd, cw_ in ((8, 16, 8), (5, 17, 9))
+             for rows in (0, ch_, ch_ + 1, ch_ + 2, ch_ + 5)]
+    cases += [[rng.randrange(1, 300), rng.randrange(1, 300), rng.randrange(1, 300), rng.randrange(1, 300), rng.randrange(1, 300), rng.randrange(0, 320)]
               for _ in range(200 if tier == "quick" else 3000)]
     for c, m in zip(cases, mrun("rb_shape", cases)):
         ncorr["rolling_buffer_shape"] += 1
@@ -1108,7 +1121,7 @@ def _run(tier, res, b):
             cons, prod = spec[oi], spec[oi - 1]
             hin = min(real_ifm_area([cons["stripe"][1], cons["stripe"][2], cons["sy"], cons["sx"], cons["k_h"], cons["k_w"], cons["dil_h"],
                                      cons["dil_h"], 0])[1][1], cons["ifm"][1])
-            hb = real_rb_shape([prod["stripe"][1], prod["stripe"][2], prod["stripe"][3], hin, cons["ifm"][2]])[1]
+            hb = real_rb_shape([prod["stripe"][1], prod["stripe"][2], prod["stripe"][3], hin, cons["ifm"][2], real_stripe_ifm_rows(cons, hin)])[1]
             mem = {}
             lost = None
             for c in real:
@@ -1153,7 +1166,8 @@ def _run(tier, res, b):
             continue
         cons, prod = spec[1], spec[0]
         hin = min(real_ifm_area([cons["stripe"][1], 1, cons["sy"], 1, cons["k_h"], 1, cons["dil_h"], 1, 0])[1][1], cons["ifm"][1])
-        hb = real_rb_shape([prod["stripe"][1], 1, 1, hin, 1])[1]
+        rows = real_stripe_ifm_rows(cons, hin)
+        hb = real_rb_shape([prod["stripe"][1], 1, 1, hin, 1, rows])[1]
         real = real_of[id(spec)]
         if real and real[0] in ("exception", "assert"):
             continue
@@ -1166,8 +1180,8 @@ def _run(tier, res, b):
                     mem[y % hb] = y
             else:
                 ok_real = ok_real and all(mem.get(y % hb) == y for y in range(cc[3][1], cc[4][1]))
-        if m[:3] != [hin, hb, 1 if ok_real else 0] or m[3] != len(real):
-            note_diff("cascade_events/run_events", c, m, [hin, hb, 1 if ok_real else 0, len(real)])
+        if m[:4] != [hin, rows, hb, 1 if ok_real else 0] or m[4] != len(real):
+            note_diff("cascade_events/run_events/stripe_ifm_rows", c, m, [hin, rows, hb, 1 if ok_real else 0, len(real)])
 
     lap('generator')
     # ---------------------------------------------------------------- 8. D2: stripe groups of every captured stream
